@@ -578,6 +578,11 @@ func (op *ShellOperator) taskHandleHookRun(t task.Task) queue.TaskResult {
 				if len(combineResult.MonitorIDs) > 0 {
 					hookMeta.MonitorIDs = combineResult.MonitorIDs
 				}
+				// Binding contexts of a binding that does not allow failure must not be dropped
+				// because the first task of the combined sequence allows failure.
+				if combineResult.ForbidFailure {
+					hookMeta.AllowFailure = false
+				}
 				t.UpdateMetadata(hookMeta)
 			}
 		}
@@ -763,6 +768,9 @@ func (op *ShellOperator) CombineBindingContextForHook(q *queue.TaskQueue, t task
 		tskMonitorIDs := tsk.GetMetadata().(task_metadata.MonitorIDAccessor).GetMonitorIDs()
 		if len(tskMonitorIDs) > 0 {
 			monitorIDs = append(monitorIDs, tskMonitorIDs...)
+		}
+		if af, ok := tsk.GetMetadata().(allowFailureAccessor); ok && !af.GetAllowFailure() {
+			res.ForbidFailure = true
 		}
 		tasksFilter[tsk.GetId()] = false
 	}
